@@ -44,6 +44,11 @@ CHECKS = {
     note="Trusted: TLC, the ok fields of Views/Select/Broadcast/Ufunc, the fork isolation of harness/include/verif/driver.hpp. Drivers are built with assertions enabled, so an assertion abort is a crash event. Three input classes (unvalidated axes, join shape mismatch, repeat length) are known findings.",
     technique="TLA+ reference semantics with explicit validity; TLC-generated invalid halves replayed under fork isolation; trace validation by TLC",
     design="5/C15"),
+ "C19": dict(
+    text="Containers.tla models utl::vector, utl::static_vector, small_vector and utl::array as a state machine over two objects: Layer R = contents of the std:: counterpart (static_vector refuses beyond capacity, unchanged), Layer I = hidden state steering code paths (allocated capacity, static/dynamic mode). TLC checks capacity, hidden-state and independence/self-assignment properties exhaustively for histories up to the bound, exports one history per explored transition (a transition tour over every (state, action) pair), the driver replays them on real objects behind a counting, poisoning allocator, and TraceContainers.tla validates the projection of both objects and the allocator ledger after every action; seeded histories of length up to 200 likewise.",
+    note="Trusted: TLC, Containers.tla as std semantics, drv_containers.cpp (placement-new object slots, counting allocator through the nmtools_malloc/nmtools_free macros, 0xA5 poisoning). Four defects repaired by fix: commits; either/maybe over non-trivial alternatives is a known finding; maybe/either/tuple value histories are not yet modelled.",
+    technique="TLA+ state machine with hidden implementation state; TLC exhaustive exploration + transition-tour export; replay on real objects; trace validation by TLC",
+    design="5/C19"),
 }
 
 NOT_APPLICABLE = {}
